@@ -21,7 +21,9 @@ RULE = ("seeded bathymetries (flat, sloping, bumpy; 2 m .. 2000 m), start depths
 COMPONENTS = {"real": ["Tracker.update vertical part (diffuse_vert, w advection, reflection)", "ROMS Grid.depth",
                        "ROMS Forcing (w as extra forcing)", "Model loop"],
               "stub": ["synthetic ocean files", "seeded numpy Generator", "scripted IBM"]}
-ASSUMPTIONS = ["a step whose vertical displacement exceeds the local depth is outside the premise and not judged "
+ASSUMPTIONS = ["a particle that starts a step deeper than the depth of the cell it occupies (it was carried horizontally into "
+               "shallower water; LADiM does not couple depth to horizontal motion) is outside 'start depths in [0, h]' and not judged",
+               "a step whose vertical displacement exceeds the local depth is outside the premise and not judged "
                "(the generator keeps 10 sigma + |w| dt below the smallest depth)"]
 TIERS = {"quick": dict(runs=1000, budget_s=50, shrink=150),
          "thorough": dict(runs=100000, budget_s=900, shrink=250)}
@@ -74,7 +76,10 @@ def execute(sc) -> Result:
                 continue
             h = ref.depth(a["X"].astype(float), a["Y"].astype(float))
             # premise: the step's vertical displacement is smaller than the local depth
+            # ... and the particle starts the step inside the column of the cell it occupies (a particle
+            # carried horizontally into a shallower cell is below that cell's bottom: outside the quantifier)
             premise = alive0 & (10 * sigma + wmax < h) & ~ref.near_tie(a["X"].astype(float), a["Y"].astype(float))
+            premise &= (Z0 >= 0) & (Z0 <= h)
             res.premise_left += int((alive0 & ~premise).sum())
             tol = 1e-9 * np.maximum(1.0, h)
             bad = premise & ((Z1 < -tol) | ~np.isfinite(Z1))
